@@ -298,7 +298,10 @@ def h_polygon(variant, m):
     else:
         vx = [cx] + [cx + m.real(f'ex{i}') for i in (1, 2)]
         vy = [cy] + [cy + m.real(f'ey{i}') for i in (1, 2)]
-        if variant == 'origin':
+        if variant == 'integer-vertices':
+            # vertices given as an INTEGER array (legitimate input); the plot origin is any real
+            reg = PolygonPixelRegion(PixCoord(np.array([1, 5, 2]), np.array([1, 2, 6])))
+        elif variant == 'origin':
             qx, qy = m.real('qx'), m.real('qy')
             reg = PolygonPixelRegion(PixCoord(np.array([x - qx for x in vx], dtype=dt), np.array([y - qy for y in vy], dtype=dt)),
                                      origin=PixCoord(qx, qy))
@@ -407,6 +410,10 @@ def h_kwargs(kind, m):
                     'line': ('edgecolor', 'blue'), 'annulus': ('edgecolor', 'blue')}[kind]
     over = _kw(reg.as_artist(**{key_override[0]: key_override[1], 'alpha': 0.5}))
     m.require('caller keyword overrides the stored visual attribute', over.get(key_override[0]) == key_override[1])
+    if artist == 'Patch':
+        # matplotlib documents that a patch's `color` keyword sets both edge and face colour and takes precedence over
+        # `edgecolor` / `facecolor`: the colour the caller asked for is only effective if no `color` keyword is passed along
+        m.require("caller's edgecolor is effective (no overriding `color` keyword is passed to the patch)", 'color' not in over)
     m.require('extra caller keywords are passed through', over.get('alpha') == 0.5)
     m.require('the other visual attributes are still applied',
               all(over.get(k) == v for k, v in expected.items() if k != key_override[0]))
@@ -441,6 +448,7 @@ def harnesses(tier):
         hs.append((f'rectangle/{au}', P(h_rect, au)))
     for v in ('plain', 'origin', 'regular'):
         hs.append((f'polygon/{v}', P(h_polygon, v)))
+    hs.append(('polygon/integer-vertices', P(h_polygon, 'integer-vertices')))
     for k in ('point', 'text', 'line'):
         hs.append((f'{k}', P(h_point_text_line, k)))
     for k in ('circle', 'ellipse', 'rectangle'):
